@@ -894,6 +894,18 @@ def hyps_of(scn, obs) -> list[bool]:
     return [done and distinct(removed + final), done and distinct(final), (not rec) or distinct(keys)]
 
 
+def glob_table_collision(obs) -> bool:
+    seen = {}
+    for x in obs['log']:
+        if x[0] == 'glob':
+            k = os.path.normpath(x[1])
+            v = [os.path.normpath(m) for m in x[2]]
+            if k in seen and seen[k] != v:
+                return True
+            seen.setdefault(k, v)
+    return False
+
+
 def coq_case(cfg, scn, obs) -> str:
     S, L = common.coq_str, common.coq_list
     D, cwd = obs['D'], obs['cwd']
@@ -973,6 +985,12 @@ def run_scenarios(ctx, cfg, scns: list[dict]):
         for sig, what in fails:
             ctx.monitor_failure(sig, what, {'scenario': scn})
         if res_code(obs) == 9 or any(s == 'C16:harness' for s, _ in fails):
+            continue
+        if glob_table_collision(obs):
+            # two DIFFERENT patterns with the same normpath got different answers from glob.glob (`a[[]1]/../a[1]/../m`
+            # normalises to `m`, but needs a directory matching the class `a[1]` to exist): the oracle table of the
+            # model world is keyed by normpath(pattern) and cannot say both. The monitors above ran; no model case.
+            ctx.count('oracle_glob_table_collision_skipped')
             continue
         cases.append(coq_case(cfg, scn, obs))
         kept.append(scn)
@@ -1228,7 +1246,11 @@ def replay(ctx, path):
     fails = monitors(scn, obs, obs['reach'])
     for sig, what in fails:
         print('monitor:', sig, what)
-    bad = ctx.run_coq_cases('replay', PREAMBLE, 'ecase', 'check_case', [coq_case(cfg, scn, obs)])
+    if glob_table_collision(obs):
+        print('scenario not representable in the oracle glob table (two patterns, one normpath, different answers): no model case')
+        bad = []
+    else:
+        bad = ctx.run_coq_cases('replay', PREAMBLE, 'ecase', 'check_case', [coq_case(cfg, scn, obs)])
     print('model/implementation agree' if not bad else 'model/implementation DISAGREE')
     print('stage:', obs['stage'], 'exception:', type(obs['exc']).__name__ if obs['exc'] else None,
           'fs calls:', [x[:2] for x in obs['log'] if x[0] != 'glob'])
